@@ -12,6 +12,7 @@ func init() {
 	register(&PropDef{ID: "C16", Title: "pip:try runs exactly the matching handler and contains the body's failure", Rules: rulesC16,
 		Explanation: "Submissions are identified by the command argument that feeds their input (?body/?success/?fail/?finally struct tags), not by position. Decided (structural necessary conditions, pipc.Try and its goroutine): R1 the body is submitted with a scope built by scope.New without a shared ContextScope (its own context), never the surrounding scope; R2 every handler submission is dominated by Wait() on that body scope; R3 the fail handler is submitted only on the non-nil edge of that Wait's result, the success handler only on its nil edge, the finally handler on an edge that does not depend on the result, and no return is reachable after the Wait without passing the finally test; R4 AddTasks(1) on the surrounding scope succeeded before the body is submitted and DoneTask is reached on every path (directly, or deferred in the handler goroutine that is started on every remaining path); R5 handlers run in the surrounding scope and a failing handler submission is appended to it; R6 the Wait the handlers are ordered after (scope.Scope.Wait) really waits for the scope's task group on every path, so 'finished' includes the tasks the body spawned. " +
 			"R6 also: Scope.Close reaches Wait on every path and scope.NewChild registers every child with its parent on every path (so 'the body has finished' includes failed scopes' tasks and children that use their own context). " +
+			"Added in round 4: R7 on the failing edge of Sandbox.Run the runner (runGo or a private stage of it) appends the error to a scope on every path — only the 'self' sandbox records its own errors, so without this a nested task in another sandbox fails silently and the try body counts as successful; handler submissions may go through a function literal kept in a local variable that records a failed submission itself. " +
 			"NOT decided: timing of nested tasks at run time (covered structurally by C11.R4 and C14.R3).",
 	})
 }
